@@ -58,6 +58,12 @@ def _join(tb):
     return box["r"]
 
 
+def rs_hd(m, i):
+    """The hd argument of a Reed-Solomon instance is documented as '= m' and the repository's tests pass m + 1; the
+    backends ignore it, so every value must behave the same: the sweeps rotate over m, m + 1, 0 and 1."""
+    return [m, m + 1, 0, m, 1][i % 5]
+
+
 def sweep_cmd(be, k, m, hd, ct, length, seed, emin, emax, cap, mode):
     return "sweep_dec %d %d %d %d %d %d %d %d %d %d %d %d" % (be, k, m, hd, WORD[be], ct, length, seed, emin, emax, cap, mode)
 
@@ -89,11 +95,11 @@ def roundtrip_cmds(chk, backends, thorough, mode, emax_fn=None, xor_tables=None)
                 picks = (lcs + [mid]) if (thorough and k + m <= 8) else [lcs[(k + m) % 6], lcs[(k * 3 + m) % 6], mid]
                 for li, L in enumerate(picks):
                     i += 1
-                    cmds.append(sweep_cmd(be, k, m, m, 1 + (k + m + li) % 2, L, _seed_of(chk, i), 0, m, 10**9, mode))
+                    cmds.append(sweep_cmd(be, k, m, rs_hd(m, i), 1 + (k + m + li) % 2, L, _seed_of(chk, i), 0, m, 10**9, mode))
             for (k, m) in boundary_rs() + ([(k, 32 - k) for k in range(3, 30, 4)] if thorough else []):
                 i += 1
                 L = len_classes(be, k)[(k + m + i) % 6]
-                cmds.append(sweep_cmd(be, k, m, m, 1 + i % 2, L, _seed_of(chk, i), 0, m, 60 if not thorough else 300, mode))
+                cmds.append(sweep_cmd(be, k, m, rs_hd(m, i), 1 + i % 2, L, _seed_of(chk, i), 0, m, 60 if not thorough else 300, mode))
             if not thorough:
                 # a few large inputs in the quick tier too (chunked copies, 32-bit sizes): 4 KiB + 1, 64 KiB + 1, 1 MiB - 3
                 for j, ((k, m), L) in enumerate([((4, 2), 4097), ((10, 4), 65537), ((3, 2), (1 << 20) - 3)]):
@@ -340,11 +346,11 @@ def c06(backends=None, prop="C06"):
         else:
             for (k, m) in rs_shapes(12 if thorough else 8):
                 i += 1
-                cmds.append(need_cmd(be, k, m, m, min(m, 4), 4000 if thorough else 1500, _seed_of(chk, i)))
+                cmds.append(need_cmd(be, k, m, rs_hd(m, i), min(m, 4), 4000 if thorough else 1500, _seed_of(chk, i)))
                 cmds.append("sweep_need_len %d %d %d %d %d %d %d %d" % (be, k, m, m, WORD[be], min(m + 1, 6), 40, _seed_of(chk, i)))
             for (k, m) in boundary_rs():
                 i += 1
-                cmds.append(need_cmd(be, k, m, m, min(m, 5), 600, _seed_of(chk, i)))
+                cmds.append(need_cmd(be, k, m, rs_hd(m, i), min(m, 5), 600, _seed_of(chk, i)))
     files, events, restarts = run_sweeps("asan", cmds, prop + "-asan")
     v = validate("TraceCodes", files)
     _collect(chk, v, ["C06", "fault", "create failed"])
@@ -497,10 +503,10 @@ def c19():
             if k + m <= 8:
                 continue
             i += 1
-            cmds.append(sweep_cmd(be, k, m, m, 1 + i % 2, len_classes(be, k)[(k + m) % 6], _seed_of(chk, i), max(m - 2, 0), m, 12 if thorough else 5, 1 | 2 | 8))
+            cmds.append(sweep_cmd(be, k, m, rs_hd(m, i), 1 + i % 2, len_classes(be, k)[(k + m) % 6], _seed_of(chk, i), max(m - 2, 0), m, 12 if thorough else 5, 1 | 2 | 8))
         for (k, m) in rs_shapes(10 if thorough else 7):
             i += 1
-            cmds.append(need_cmd(be, k, m, m, min(m, 4), 1500, _seed_of(chk, i)))
+            cmds.append(need_cmd(be, k, m, rs_hd(m, i), min(m, 4), 1500, _seed_of(chk, i)))
             cmds.append("sweep_need_len %d %d %d %d %d %d %d %d" % (be, k, m, m, WORD[be], min(m + 1, 6), 30, _seed_of(chk, i)))
     files, events, restarts = run_sweeps("asan", cmds, "C19-asan")
     v = validate("TraceCodes", files)
